@@ -331,7 +331,7 @@ func c14r3(c *core.Ctx) {
 	// UpdateIDs runs before/at insertion
 	called := false
 	core.Instrs(f, func(i ssa.Instruction) {
-		if g := core.Callee(i); g != nil && g.Name() == "UpdateIDs" {
+		if g := core.Callee(i); g != nil && cn(g) == "UpdateIDs" {
 			called = true
 		}
 	})
